@@ -866,7 +866,11 @@ impl<'p, 's, M: Matcher, W: WriteColor> Sink for StandardSink<'p, 's, M, W> {
         }
         if searcher.binary_detection().convert_byte().is_some() {
             if self.binary_byte_offset.is_some() {
-                return Ok(false);
+                // This line isn't printed. But whether the file gets its
+                // "binary file matches" notice depends on whether one of
+                // its lines matches, so the search can only stop here once
+                // a match has been seen.
+                return Ok(self.match_count == 0);
             }
         }
 
@@ -878,6 +882,11 @@ impl<'p, 's, M: Matcher, W: WriteColor> Sink for StandardSink<'p, 's, M, W> {
         &mut self,
         searcher: &Searcher,
     ) -> Result<bool, io::Error> {
+        if searcher.binary_detection().convert_byte().is_some() {
+            if self.binary_byte_offset.is_some() {
+                return Ok(true);
+            }
+        }
         StandardImpl::new(searcher, self).write_context_separator()?;
         Ok(true)
     }
